@@ -92,9 +92,9 @@ class VectorContainer:
         if len(positions) == 0:
             raise KeyError(period)
 
-        # One match: Unpack and return
+        # One match: Unpack and return (as a regular `int`, as from `list.index()`)
         if len(positions) == 1:
-            return positions[0]
+            return int(positions[0])
 
         raise NotImplementedError('Multiple matches not supported')
 
